@@ -93,18 +93,26 @@ def r_pairing(F, R, cat=None):
         R.saw(b)
         ctx = Ctx(b)
         calls = [(callee_tag(t.get("callee")), bi, t) for (bi, t) in b.calls()]
-        wc = [c for c in calls if c[0] == ("FlatStack", "with_capacity")]
         ex = [c for c in calls if c[0] == ("Extend", "extend")]
-        ok = len(wc) == 1 and len(ex) == 1
+        ok = len(ex) == 1
+        why = ""
         if ok:
-            recv = operand_tree(ctx, ex[0][2]["args"][0])
+            from r_lifecycle import fresh_value
+            _, effs = cat.effects(b)
+            a0 = ex[0][2]["args"][0]
             it = operand_tree(ctx, ex[0][2]["args"][1])
-            ok = recv[0] == "call" and recv[1] == ("FlatStack", "with_capacity") and \
-                it == ("call", ("IntoIterator", "into_iter"), (("place", b.key, ("arg", 1), ()),), (), it[4] if len(it) == 5 else None)
-            rets = [tree(ctx, o) for o in ctx.org.local(0)]
-            ok = ok and len(rets) == 1 and rets[0][0] == "call" and rets[0][1] == ("FlatStack", "with_capacity")
+            # the stack that is extended is freshly built (FlatStack::with_capacity / default, or a
+            # struct literal of fresh parts), it is extended with the whole iterator, and returned
+            fresh = [fresh_value(ctx, o, effs) for o in ctx.org.operand(a0)] if a0["k"] != "const" else []
+            ok_fresh = bool(fresh) and all(x[0] for x in fresh)
+            ok_iter = it == ("call", ("IntoIterator", "into_iter"), (("place", b.key, ("arg", 1), ()),), (), it[4] if len(it) == 5 else None) \
+                or it == ("place", b.key, ("arg", 1), ())
+            ok_ret = set(ctx.org.local(0)) == set(ctx.org.operand(a0)) if a0["k"] != "const" else False
+            ok = ok_fresh and ok_iter and ok_ret
+            why = "fresh receiver: %s (%s); whole iterator: %s; receiver returned: %s" % (
+                ok_fresh, "; ".join(x[1] for x in fresh)[:80], ok_iter, ok_ret)
         R.check("R-PAIRING", b.label(), ok, construct="from_iter = with_capacity + extend(iter)",
-                where=b.where())
+                where=b.where(), detail=why)
 
 
 EXPECT = {
